@@ -11,6 +11,8 @@ from aurel import maths
 from harness import pointwise as P
 from harness.aurelside import make_rel
 from harness.common import Sub
+from harness.pointwise import (I_like, Ref, decide, det_field, inv_field, mm,
+                               offdiag_cond, sym_scales)
 
 PROPERTY = "C08"
 RULE = (
@@ -61,52 +63,6 @@ C = 256.0
 
 # ---------------------------------------------------------------------------
 # helpers
-
-
-def I_like(n, shape):
-    out = np.zeros((n, n) + tuple(shape))
-    for i in range(n):
-        out[i, i] = 1.0
-    return out
-
-
-def mm(A, B):
-    return np.einsum('ik...,kj...->ij...', A, B)
-
-
-def inv_field(Ah, kap):
-    """numpy.linalg.inv at the decidable points (identity elsewhere)."""
-    n = Ah.shape[0]
-    ok = np.isfinite(kap)
-    Al = P.grid_to_last(Ah, 2).copy()
-    Al[~ok] = np.eye(n)
-    return P.last_to_grid(np.linalg.inv(Al), 2)
-
-
-def det_field(Ah):
-    return np.linalg.det(P.grid_to_last(Ah, 2))
-
-
-def sym_scales(A):
-    """d_i = sqrt(max_j |A_ij|) (1 where the row vanishes)"""
-    m = np.max(np.abs(A), axis=1)
-    return np.sqrt(np.where(m > 0, m, 1.0))
-
-
-def decide(kap):
-    return np.where(kap <= 1e10, kap, np.inf)
-
-
-def offdiag_cond(Ah, A):
-    n = Ah.shape[0]
-    od = np.zeros(Ah.shape[2:])
-    for i in range(n):
-        for j in range(n):
-            if i != j:
-                od = np.maximum(od, np.abs(Ah[i, j]))
-    with np.errstate(all='ignore'):
-        c2 = np.linalg.cond(P.grid_to_last(A, 2))
-    return od, c2
 
 
 def classes_for(note, od, c2, kap):
@@ -287,66 +243,6 @@ def generic_core(**kw):
             c.update(kw)
             out.append(c)
     return out
-
-
-class Ref:
-    """Textbook 3+1 reference written independently of aurel."""
-
-    def __init__(self, f):
-        gam, al, bu, K = f["gamma"], f["alpha"], f["betaup"], f["K"]
-        shape = f["shape"]
-        self.shape = shape
-        self.d = np.sqrt(np.array([gam[i, i] for i in range(3)]))
-        self.d4 = np.concatenate([al[None], self.d])
-        self.Gh = P.eq(gam, 'dd', self.d)
-        self.kap3 = decide(P.kappa(self.Gh))
-        self.Ghi = inv_field(self.Gh, self.kap3)
-        self.Gi = np.maximum(1.0, P.amax(self.Ghi, 2))
-        self.gup = P.eq(self.Ghi, 'dd', self.d)
-        self.vol = np.prod(self.d, axis=0) ** 2
-        self.detGh = det_field(self.Gh)
-        self.detgam = self.detGh * self.vol
-        self.bd = np.zeros((3,) + shape)
-        for i in range(3):
-            for j in range(3):
-                self.bd[i] += gam[i, j] * bu[j]
-        self.bmag = sum(bu[i] * self.bd[i] for i in range(3))
-        g4 = np.zeros((4, 4) + shape)
-        g4[0, 0] = -al**2 + self.bmag
-        g4[0, 1:] = self.bd
-        g4[1:, 0] = self.bd
-        g4[1:, 1:] = gam
-        self.g4 = g4
-        g4u = np.zeros((4, 4) + shape)
-        g4u[0, 0] = -1.0 / al**2
-        g4u[0, 1:] = bu / al**2
-        g4u[1:, 0] = bu / al**2
-        g4u[1:, 1:] = self.gup - np.einsum('i...,j...->ij...', bu, bu) / al**2
-        self.g4u = g4u
-        self.nup = np.concatenate([(1.0 / al)[None], -bu / al])
-        self.ndown = np.zeros((4,) + shape)
-        self.ndown[0] = -al
-        # frame A (alpha, d_i): assembly of the 4-metric from 3+1 pieces
-        self.g4h = P.eq(g4, 'dd', self.d4)
-        self.bh = P.eq(bu, 'u', self.d) / al
-        self.b = P.amax(self.bh, 1)
-        self.M4 = np.maximum(1.0, P.amax(self.g4h, 2))
-        # frame S (sqrt of row maxima of g, |entries| <= 1): everything
-        # that involves the inverse / determinant of the 4-metric
-        self.e4 = sym_scales(g4)
-        self.g4s = P.eq(g4, 'dd', self.e4)
-        self.g4us = P.eq(g4u, 'uu', self.e4)
-        self.kap4 = decide(P.kappa(self.g4s))
-        self.kap = np.maximum(self.kap3, self.kap4)
-        self.M4us = np.maximum(1.0, P.amax(self.g4us, 2))
-        self.vol4 = np.prod(self.e4, axis=0) ** 2
-        self.Kh = P.eq(K, 'dd', self.d)
-        self.Km = P.amax(self.Kh, 2)
-        self.al = al
-        self.gam = gam
-        self.bu = bu
-        self.K = K
-        self.od, self.c2 = offdiag_cond(self.Gh, gam)
 
 
 def setup_core(case, note):
@@ -1067,19 +963,19 @@ def subchecks(tier):
     gh.append(dict(P.GENERIC_GEO, bamp=[0.0, -1.1, 0.4], form="components",
                    omit=True, g4first=False, st_first=True))
     return [
-        Sub("maths3", maths3_case(), test_maths3, 1200 if q else 20000,
+        Sub("maths3", maths3_case(), test_maths3, 800 if q else 20000,
             generic=g3, shards=8 if q else 16),
-        Sub("maths4", maths4_case(), test_maths4, 1200 if q else 20000,
+        Sub("maths4", maths4_case(), test_maths4, 800 if q else 20000,
             generic=g4, shards=8 if q else 16),
-        Sub("metric", core_case(), test_metric, 800 if q else 16000,
+        Sub("metric", core_case(), test_metric, 560 if q else 16000,
             generic=generic_core(), shards=8 if q else 16),
-        Sub("curv", core_case(), test_curv, 800 if q else 16000,
+        Sub("curv", core_case(), test_curv, 560 if q else 16000,
             generic=generic_core(), shards=8 if q else 16),
-        Sub("helpers", helpers_case(), test_helpers, 640 if q else 12000,
+        Sub("helpers", helpers_case(), test_helpers, 400 if q else 12000,
             generic=gh, shards=8 if q else 16),
-        Sub("riemann", riemann_case(), test_riemann, 400 if q else 6000,
+        Sub("riemann", riemann_case(), test_riemann, 240 if q else 6000,
             generic=gr, shards=8 if q else 16),
         Sub("safe_division", sd_case(), test_safe_division,
-            3000 if q else 60000, generic=sd_generic(),
+            2400 if q else 60000, generic=sd_generic(),
             shards=8 if q else 16),
     ]
